@@ -184,6 +184,9 @@ func init() {
 		return in.tt.Ite(c.args[0].(*Term), c.args[1].(*Term), c.args[2].(*Term))
 	}
 	rtIntrinsics["vIteInt"] = rtIntrinsics["vIteInt64"]
+	rtIntrinsics["vDec"] = func(in *Interp, c *callCtx) Value {
+		return in.mkRope([]piece{{kind: 2, dec: c.args[0].(*Term), sign: true}})
+	}
 	rtIntrinsics["vB2U"] = func(in *Interp, c *callCtx) Value {
 		return in.tt.Ite(c.args[0].(*Term), in.tt.Const(64, 1), in.tt.Const(64, 0))
 	}
